@@ -36,9 +36,9 @@ ASSUMPTIONS = ["only the Python layers of the platforms are exercised; native C 
                "ladder probes (is_zombie, pid_exists, pids) run for real over the world model and are answered truthfully",
                "wait() is driven with timeout 0 only; AIX open_files() (subprocess) is not driven; the system-wide functions are not called "
                "(their named-tuple classes are read)"]
-EXHAUSTIVE = {"quick": "the whole ladder space (platform x method x failing call x error x state x pid), every native status code, all e1 x e2 of "
-                       "the documented two-call pairs (Windows: 2 of 4 state/pid combinations), retry counts 1/2/32/33/34, wait scenarios, "
-                       "all documented layouts, 7 x 5 system tuples",
+EXHAUSTIVE = {"quick": "by theorem over the tables regenerated from the code on every run: the whole ladder, status-code, all-sites, double-fault and "
+                       "two-call spaces. Case by case (concrete replays): every method x failing call x one errno per exception class x state "
+                       "(pid 0 on the PID-0-rule platforms), retry counts 1/2/32/33/34, wait scenarios, all documented layouts, 7 x 5 system tuples",
               "thorough": "as quick with all state/pid combinations of the pairs; 40 random records per documented layout; 300 front-end rows per platform"}
 
 PLATS = ["freebsd", "openbsd", "netbsd", "macos", "sunos", "aix", "windows"]
@@ -130,6 +130,11 @@ def gen_cases(rng, tier):
                 for site in sites[str(pid)]:
                     for e in errs:
                         for st in STATES:
+                            # quick: one errno per exception class, and pid 0 only where it matters (the PID-0 rule platforms,
+                            # not as a zombie); C20_ladder_contract / _tables_equal_model cover the whole space on every run
+                            if tier == "quick" and (e in ("EACCES", "WINVAL")
+                                                    or (pid == 0 and (st == "zombie" or plat in ("macos", "aix", "windows")))):
+                                continue
                             cases.append({"kind": "ladder", "cls": "ladder-%s-%s" % (plat, e), "plat": plat, "meth": meth,
                                           "site": site, "err": e, "state": st, "pid": pid})
     # ---- every native call of the method fails with the same error (really gone / really off-limits process)
@@ -177,6 +182,8 @@ def gen_cases(rng, tier):
                     continue            # (C20_zombie_by_status_code covers pid 0 too on every run)
                 for site in sites[str(pid)]:
                     for code, _text in r["codes"]:
+                        if tier == "quick" and _text != "zombie" and code not in ("SSTOP", "SRUN"):
+                            continue        # (C20_zombie_by_status_code covers every code on every run)
                         for e in (["ESRCH", "ENOENT"] if plat in ("sunos", "aix") else ["ESRCH"]):
                             cases.append({"kind": "ladder", "cls": "status-%s-%s" % (plat, code), "plat": plat, "meth": meth,
                                           "site": site, "err": e, "state": "code:" + code, "pid": pid})
@@ -189,8 +196,10 @@ def gen_cases(rng, tier):
                 for e2 in errs:
                     for st, pid in (("alive", 7), ("gone", 7), ("alive", 0), ("zombie", 7)) if plat == "windows" else \
                             [(a, b) for a in STATES for b in (7, 0)]:
-                        if tier == "quick" and plat == "windows" and (st, pid) != ("alive", 7):
-                            continue      # (C20_pair_contract covers every state / pid on every run)
+                        if tier == "quick" and ((plat == "windows" and (st, pid) != ("alive", 7))
+                                                or (plat != "windows" and (st == "zombie" or (pid == 0 and st == "gone")))
+                                                or "EACCES" in (e1, e2) or "WINVAL" in (e1, e2)):
+                            continue      # (C20_pair_contract covers every e1 x e2 x state x pid on every run)
                         cases.append({"kind": "pair", "cls": "pair-%s-%s" % (plat, meth), "plat": plat, "meth": meth, "site1": s1,
                                       "site2": s2, "err1": e1, "err2": e2, "state": st, "pid": pid})
     for meth, site in P.RETRY + [("exe", "proc_exe")]:
@@ -335,7 +344,7 @@ def coq_struct(case, raw):
     if k == "ladder":
         return {"model": raw[0], "spec": raw[1], "contract": raw[2]}
     if k == "probe":
-        return {"model": raw[0], "spec": None, "allowed": raw[1], "known": raw[2]}
+        return {"model": raw[0], "spec": None, "allowed": raw[1]}
     if k in ("layout", "dep", "nic", "pair", "retry", "wait", "sysfields", "olayout", "allfail", "probe"):
         return {"model": raw[0], "spec": raw[1]}
     raise ValueError(k)
@@ -351,8 +360,6 @@ def finding_key(case, coq):
         if case["plat"] == "netbsd" and case["meth"] == "cmdline" and case["site"] == "proc_cmdline" and case["err"] == "EINVAL":
             return "pid0-unlisted-taken-to-exist"
     # fixed: windows-memory_maps-querydosdevice d6fc959, windows-ipv6-broadcast-address-form-netmask 0a57bb9
-    if case["kind"] == "probe" and coq.get("known") is True:
-        return "sunos-probe-error-escapes"
     if case["kind"] == "pair" and case["plat"] == "sunos" and case["pid"] == 0 and case["state"] == "gone" \
             and ("ESRCH" in (case["err1"], case["err2"]) or "ENOENT" in (case["err1"], case["err2"])):
         return "pid0-unlisted-taken-to-exist"
@@ -607,7 +614,7 @@ MANIFEST = {
             "k times for every k, for wait(0) (TimeoutExpired with pid and name while the PID is listed), for every native call of the method failing "
             "at once, and for double faults in the translation path (the call fails with e1, the follow-up probes is_zombie / pid_exists / pids "
             "with an independent e2: the outcome lies in the acceptable set, never a bare OSError for a no-such-process or permission failure). Excluded and refuted: a PID 0 the OS "
-            "does not list is taken to exist (Solaris, NetBSD cmdline); Solaris lets an os.kill probe error other than ESRCH/EPERM out. Legacy variants of the model (before fixes a2d103c, d6fc959, 0a57bb9) are "
+            "does not list is taken to exist (Solaris, NetBSD cmdline). Legacy variants of the model (before fixes a2d103c, d6fc959, 0a57bb9) are "
             "refuted. Tables "
             "regenerated from the code on every run (finite forallb facts lifted with forallb_forall): every probed outcome of every (platform, "
             "method, call, error, state, pid), of every native status code of every PROC_STATUSES (ZombieProcess iff the code means zombie), of "
